@@ -45,6 +45,20 @@ CLAIMS = {
             "always recorded; backup_copy_file writes iff the recorded md5 differs from the md5 of exactly the bytes read and nothing "
             "else can skip it; writer and reader agree on 32 lower-case hex digits of dig[0..15]. That is the protocol of backup.h "
             "decided for all histories; MD5 arithmetic itself is not examined.", "DESIGN.md section 4 C14"),
+    "C15": ("writer/reader table agreement extracted from the parsed program (directive words, enum string tables of the generated option_enum.cpp, quote/escape sets), must-pass-through in save_option_file, registry census over the 857 option objects, who-may-write for Option::m_val",
+            "Every directive the writers print is one the loader dispatches on; for all four enumerated option types "
+            "convert_string(to_string(v)) = v and every advertised spelling is accepted; string values are written with exactly the "
+            "reader's special characters escaped; the writer skips an option only under `minimal`; all 857 option objects are "
+            "registered once under their own lower-case identifier; option values are stored only by the reader functions. These "
+            "are closed-form facts over the whole registry and all spellings. Numeric printf/strtol round-tripping and include "
+            "resolution are not decided.", "DESIGN.md section 4 C15"),
+    "C16": ("guard analysis of every m_val store in the reader instantiations, must-pass-through (warning before every `return false`, effect-or-warning on every path of process_option_line), throwing-conversion census with dominating-check idioms, option-provenance to newline-count sinks vs the nl_max guard set, ordering in main",
+            "All 8 stores to an option value are shown to sit behind validate()/type tests; all 56 `return false` exits of the readers "
+            "and of every BoundedOption::validate instantiation are preceded by a diagnostic; no configuration line can be consumed "
+            "silently; every std::stoi-family call has a dominating digits/length check; all 139 unsigned options are bounded; every "
+            "unsigned option that can raise a newline count is compared with nl_max, and that comparison runs after the last option "
+            "store and before any source is read. Holds for every configuration text; wording of diagnostics and include cycles are "
+            "not decided.", "DESIGN.md section 4 C16"),
     "C19": ("CFG dataflow (last-logged-rule x option provenance) over all do_space returns + who-may-call + switch-arm effect check",
             "Every return of do_space() (359) is checked: the option named by the last log_rule on each path is the option whose "
             "value (or a guard on it) decides the return; do_space is reachable only through ensure_force_space; the appliers' "
